@@ -15,7 +15,9 @@ C01G == Grammar(
     \* a closure made in a let, then a let in TAIL position of that let rebinding / shadowing what the closure reads
     "(let [y (fn [] x)] (let [x _1] (list (y) x)))", "(let [x 1 y (fn [] x)] (if true (let [x _1] (list (y) x))))",
     \* a closure with a rest parameter under map / apply: each call has its own argument list
-    "(map (fn [& y] y) (list _1 x 1))", "(apply (fn [x & y] (list x y)) _1 (list x 1))">>,
+    "(map (fn [& y] y) (list _1 x 1))", "(apply (fn [x & y] (list x y)) _1 (list x 1))",
+    \* two results derived from one list by builtin calls, and the list itself
+    "(let [y (quote (_1 2 3))] (list (concat y (list 1)) (concat y (list 2)) (cons 0 y) y))">>,
   <<"(if _1 _2)", "(do _1 _2)", "(let [x _1] _2)", "(let [y _1] _2)", "((fn [y] _2) _1)",
     "((fn [& y] _2) _1)", "(+ _1 _2)", "(list _1 _2)", "(f _1 _2)", "(_1 _2)">>,
   <<"(if _1 _2 _3)", "(let [x _1 y _2] _3)", "(let [x _1] _2 _3)", "((fn [x y] _3) _1 _2)",
